@@ -23,49 +23,6 @@ theorem evalF_noTime (m : List Bool) (τ : Rat) (env : Nat → Rat) (ienv : Nat 
     (e : TExpr) (h : noTime m e = true) : evalF (shiftF m τ env) ienv e = evalF env ienv e :=
   evalOps_noTime floatOps _ m τ env ienv e h
 
-/-- binary64 residue of a `time + invariant` expression: with `B` the (unchanged) binary64 value
-    of the invariant part and `x` the time variable,
-    `|fl(x+τ+B) − τ − fl(x+B)| ≤ 2⁻⁵³ (|x+τ+B| + |x+B|)`. -/
-theorem evalF_timePlusInv_residue (m : List Bool) (τ : Rat) (env : Nat → Rat) (ienv : Nat → Int)
-    (i : Nat) (b : TExpr) (hi : m.getD i false = true) (hb : noTime m b = true) :
-    |evalF (shiftF m τ env) ienv (.add (.var i) b) - τ - evalF env ienv (.add (.var i) b)|
-      ≤ (1 / 2 ^ 53) * (|env i + τ + evalF env ienv b| + |env i + evalF env ienv b|) := by
-  have hB := evalF_noTime m τ env ienv b hb
-  have hx : shiftF m τ env i = env i + τ := by
-    simp only [shiftF, shiftEnv, hi, if_true]
-  have key : evalF (shiftF m τ env) ienv (.add (.var i) b)
-      = rnd (env i + τ + evalF env ienv b) := by
-    show fadd (shiftF m τ env i) (evalF (shiftF m τ env) ienv b) = _
-    rw [hx, hB]
-    rfl
-  have key2 : evalF env ienv (.add (.var i) b) = rnd (env i + evalF env ienv b) := rfl
-  rw [key, key2]
-  generalize evalF env ienv b = B
-  have e1 := OQuPyVerif.FloatGrid.rnd_err (env i + τ + B)
-  have e2 := OQuPyVerif.FloatGrid.rnd_err (env i + B)
-  have : rnd (env i + τ + B) - τ - rnd (env i + B)
-       = (rnd (env i + τ + B) - (env i + τ + B)) - (rnd (env i + B) - (env i + B)) := by ring
-  rw [this]
-  calc |(rnd (env i + τ + B) - (env i + τ + B)) - (rnd (env i + B) - (env i + B))|
-      ≤ |rnd (env i + τ + B) - (env i + τ + B)| + |rnd (env i + B) - (env i + B)| := abs_sub _ _
-    _ ≤ 1 / 2 ^ 53 * |env i + τ + B| + 1 / 2 ^ 53 * |env i + B| := add_le_add e1 e2
-    _ = 1 / 2 ^ 53 * (|env i + τ + B| + |env i + B|) := by ring
-
-/-- times occur only inside differences of two times -/
-def diffOnly (m : List Bool) : TExpr → Bool
-  | .sub (.var i) (.var j) =>
-      (m.getD i false && m.getD j false) || (!(m.getD i false) && !(m.getD j false))
-  | .var i => !(m.getD i false)
-  | .ofI _ => true
-  | .lit _ => true
-  | .add a b => diffOnly m a && diffOnly m b
-  | .sub a b => diffOnly m a && diffOnly m b
-  | .mul a b => diffOnly m a && diffOnly m b
-  | .div a b => diffOnly m a && diffOnly m b
-  | .neg a => diffOnly m a
-  | .round a => diffOnly m a
-  | .trunc a => diffOnly m a
-
 /-- Float → step conversions are bit-identical under an exact shift: `(t+τ) − (s+τ)` and `t − s`
     are the same rational, so `fsub` rounds the same number. -/
 theorem evalF_diffOnly (m : List Bool) (τ : Rat) (env : Nat → Rat) (ienv : Nat → Int) :
@@ -129,6 +86,34 @@ theorem evalF_diffOnly (m : List Bool) (τ : Rat) (env : Nat → Rat) (ienv : Na
           | simpa only [diffOnly, Bool.and_eq_true] using h
       simp only [evalF, evalOps] at iha ihb ⊢
       rw [iha h'.1, ihb h'.2]
+
+/-- binary64 residue of a `time + invariant` expression: with `B` the (unchanged) binary64 value
+    of the invariant part and `x` the time variable,
+    `|fl(x+τ+B) − τ − fl(x+B)| ≤ 2⁻⁵³ (|x+τ+B| + |x+B|)`. -/
+theorem evalF_timePlusInv_residue (m : List Bool) (τ : Rat) (env : Nat → Rat) (ienv : Nat → Int)
+    (i : Nat) (b : TExpr) (hi : m.getD i false = true) (hb : diffOnly m b = true) :
+    |evalF (shiftF m τ env) ienv (.add (.var i) b) - τ - evalF env ienv (.add (.var i) b)|
+      ≤ (1 / 2 ^ 53) * (|env i + τ + evalF env ienv b| + |env i + evalF env ienv b|) := by
+  have hB := evalF_diffOnly m τ env ienv b hb
+  have hx : shiftF m τ env i = env i + τ := by
+    simp only [shiftF, shiftEnv, hi, if_true]
+  have key : evalF (shiftF m τ env) ienv (.add (.var i) b)
+      = rnd (env i + τ + evalF env ienv b) := by
+    show fadd (shiftF m τ env i) (evalF (shiftF m τ env) ienv b) = _
+    rw [hx, hB]
+    rfl
+  have key2 : evalF env ienv (.add (.var i) b) = rnd (env i + evalF env ienv b) := rfl
+  rw [key, key2]
+  generalize evalF env ienv b = B
+  have e1 := OQuPyVerif.FloatGrid.rnd_err (env i + τ + B)
+  have e2 := OQuPyVerif.FloatGrid.rnd_err (env i + B)
+  have : rnd (env i + τ + B) - τ - rnd (env i + B)
+       = (rnd (env i + τ + B) - (env i + τ + B)) - (rnd (env i + B) - (env i + B)) := by ring
+  rw [this]
+  calc |(rnd (env i + τ + B) - (env i + τ + B)) - (rnd (env i + B) - (env i + B))|
+      ≤ |rnd (env i + τ + B) - (env i + τ + B)| + |rnd (env i + B) - (env i + B)| := abs_sub _ _
+    _ ≤ 1 / 2 ^ 53 * |env i + τ + B| + 1 / 2 ^ 53 * |env i + B| := add_le_add e1 e2
+    _ = 1 / 2 ^ 53 * (|env i + τ + B| + |env i + B|) := by ring
 
 /-- a rounding is stable as long as both quotients stay within 1/2 of the same integer -/
 theorem round_stable (q q' : Rat) (n : Int) (h : |q - n| < 1 / 2) (h' : |q' - n| < 1 / 2) :
